@@ -5,8 +5,8 @@
    on such an input the writer model never panics or fails, so no hypothesis about the run remains.
    What remains hypothetical is physical: the file and every block buffer are shorter than 2^64
    bytes, the input has fewer than 2^32 - 1 entries (a block footer counts its restart offsets in a
-   u32), the codec never fails and decompress inverts it.  The empty file is covered by the
-   correspondence only. *)
+   u32), the codec never fails and decompress inverts it.  The empty file has its own
+   theorem (C01_empty_file). *)
 From Grenad.model Require Import Base Block Trailer Spec Format.
 From Grenad.proofs Require Import BlockProofs FormatProofs TrailerProofs.
 
@@ -111,3 +111,27 @@ Theorem C01_roundtrip_total : forall compress decompress c,
                     rs = map Some (rev es) ++ [None])).
 Proof. exact roundtrip_total. Qed.
 Print Assumptions C01_roundtrip_total.
+
+(* ================= the empty file =================
+   finishing the writer without any insert yields a file that opens with entry count 0 and the
+   configured codec, on which EVERY history of cursor operations returns None at every step, and all
+   four iterators yield nothing (that this run finishes is the instance es = [] of progress) *)
+From Grenad.model Require Import Iter.
+From Grenad.proofs Require Import EmptyFile.
+
+Theorem C01_empty_file : forall compress decompress c,
+  (forall b z, compress (wc_codec c) (wc_level c) b = Done z -> decompress (wc_codec c) z = Done b) ->
+  forall i s lg m, wc_levels c < 256 -> 1 <= wc_interval c -> wc_codec c <= 5 ->
+  w_run_gen vsink vs_wr vs_fl vs_count compress c vs_empty [] = (i, Done (s, lg, m)) ->
+  len (vs_bytes s) < 2^64 -> (forall e, In e lg -> len (em_bytes e) < 2^64) ->
+  open_meta (vs_bytes s) = Done m /\ m_count m = 0 /\ m_codec m = wc_codec c /\
+  let step := cstep (load_block decompress (vs_bytes s) (m_codec m)) (m_root m) (m_levels m) in
+  (forall ops, exists st, run_ops (load_block decompress (vs_bytes s) (m_codec m)) (m_root m) (m_levels m) cs_fresh ops
+                          = Done (st, repeat None (length ops))) /\
+  (forall lo hi p fuel, (0 < fuel)%nat ->
+     collect (range_next step lo hi) fuel iter_new = Done [] /\
+     collect (rev_range_next step lo hi) fuel iter_new = Done [] /\
+     collect (prefix_next step p) fuel iter_new = Done [] /\
+     collect (rev_prefix_next step p) fuel iter_new = Done []).
+Proof. exact empty_file_reads_empty. Qed.
+Print Assumptions C01_empty_file.
